@@ -10,6 +10,9 @@ import Anndb.Drive.Catalogue
 import Anndb.Drive.Wedge
 import Anndb.Drive.Simd
 import Anndb.Drive.Rpc
+import Anndb.Drive.Recovery
+import Anndb.Drive.RaftLoop
+import Anndb.Drive.Members
 /-! `driver <engine>`: the executable Lean models behind a one-line-in, one-line-out protocol. -/
 def main (args : List String) : IO UInt32 := do
   let h ← IO.getStdin
@@ -27,4 +30,7 @@ def main (args : List String) : IO UInt32 := do
   | ["wedge"] => Anndb.Drive.Wedge.main h out; return 0
   | ["simd"] => Anndb.Drive.Simd.main h out; return 0
   | ["rpc"] => Anndb.Drive.Rpc.main h out; return 0
+  | ["recovery"] => Anndb.Drive.Recovery.main h out; return 0
+  | ["raftloop"] => Anndb.Drive.RaftLoop.main h out; return 0
+  | ["members"] => Anndb.Drive.Members.main h out; return 0
   | _ => IO.eprintln "usage: driver <engine>"; return 2
